@@ -189,6 +189,22 @@ func parseGroup(node *yaml.Node, schema Schema, offsetLine, offsetColumn int, co
 				group.Error = err
 				return group
 			}
+			for _, label := range nodes {
+				if !model.LabelName(label.key.Value).IsValid() || label.key.Value == model.MetricNameLabel {
+					group.Error = ParseError{
+						Line: label.key.Line,
+						Err:  fmt.Errorf("invalid label name: %s", label.key.Value),
+					}
+					return group
+				}
+				if !model.LabelValue(label.val.Value).IsValid() {
+					group.Error = ParseError{
+						Line: label.key.Line,
+						Err:  fmt.Errorf("invalid label value: %s", label.val.Value),
+					}
+					return group
+				}
+			}
 			group.Labels = newYamlMap(entry.key, entry.val, offsetLine, offsetColumn, contentLines)
 		case "rules":
 			if !isTag(entry.val.ShortTag(), seqTag) {
